@@ -250,7 +250,7 @@ Proof.
 Qed.
 
 Section AnyPulseFuel.
-  Variable pl : nat -> nat -> N -> N -> list cop.
+  Variable pl : nmap -> nat -> nat -> N -> N -> list cop.
 
   Lemma run_cops_fuel G N f : forall os m,
     Good G m -> (forall y, alive (m y) = true -> y < N) -> 2 * N + 2 <= f -> exists m', run_cops f m os = Some m'.
@@ -275,7 +275,7 @@ Section AnyPulseFuel.
     assert (Hm1 : cop_mono (nd s) (nd s1)).
     { unfold pulse_self in Hs. destruct (valid (nd s x) && N.leb (sched (nd s x)) now); [|inversion Hs; subst; apply cop_mono_refl].
       set (m1 := upd (nd s) x (set_npl (nd s x) (S (npl (nd s x))))) in *.
-      destruct (run_cops f m1 (pl x (npl (nd s x)) now (sched (nd s x)))) as [m2|] eqn:Hrc; [|discriminate].
+      destruct (run_cops f m1 (pl m1 x (npl (nd s x)) now (sched (nd s x)))) as [m2|] eqn:Hrc; [|discriminate].
       inversion Hs; subst s1. simpl.
       assert (Hs01 : same_struct (nd s) m1) by (apply same_struct_upd_scalar; reflexivity).
       assert (Hgm1 : Good G m1).
@@ -326,7 +326,7 @@ Section AnyPulseFuel.
         - apply (c_k6 _ (i_core _ (g_inv _ _ Hg))).
         - simpl. auto.
         - simpl. intros Hv' HG. now apply (g_k2 _ _ Hg). }
-      destruct (run_cops_fuel G N f (pl x (npl (nd s x)) now (sched (nd s x))) m1 Hgm1) as (m2 & ->); [|lia|eauto].
+      destruct (run_cops_fuel G N f (pl m1 x (npl (nd s x)) now (sched (nd s x))) m1 Hgm1) as (m2 & ->); [|lia|eauto].
       intros y Hy. apply Ha. unfold m1 in Hy.
       destruct (upd_cases (nd s) x (set_npl (nd s x) (S (npl (nd s x)))) y) as [[-> Hu]|[_ Hu]]; rewrite Hu in Hy; exact Hy. }
     destruct Hself as (s1 & Hs). rewrite Hs.
@@ -336,7 +336,7 @@ Section AnyPulseFuel.
     assert (Hm1 : cop_mono (nd s) (nd s1)).
     { unfold pulse_self in Hs. destruct (valid (nd s x) && N.leb (sched (nd s x)) now); [|inversion Hs; subst; apply cop_mono_refl].
       set (m1 := upd (nd s) x (set_npl (nd s x) (S (npl (nd s x))))) in *.
-      destruct (run_cops f m1 (pl x (npl (nd s x)) now (sched (nd s x)))) as [m2|] eqn:Hrc; [|discriminate].
+      destruct (run_cops f m1 (pl m1 x (npl (nd s x)) now (sched (nd s x)))) as [m2|] eqn:Hrc; [|discriminate].
       inversion Hs; subst s1. simpl.
       assert (Hs01 : same_struct (nd s) m1) by (apply same_struct_upd_scalar; reflexivity).
       assert (Hgm1 : Good G m1).
@@ -396,9 +396,9 @@ Section AnyPulseFuel.
 End AnyPulseFuel.
 
 Section StepFuelAny.
-  Variable gt : nat -> nat -> N -> N -> N * list cop.
-  Variable pl : nat -> nat -> N -> N -> list cop.
-  Hypothesis gt_pure : forall x k now prev, snd (gt x k now prev) = [].
+  Variable gt : nmap -> nat -> nat -> N -> N -> N * list cop.
+  Variable pl : nmap -> nat -> nat -> N -> N -> list cop.
+  Hypothesis gt_pure : forall m x k now prev, snd (gt m x k now prev) = [].
 
   Lemma top_pulse_total_any f s r now N :
     Good nobody (nd s) -> (forall y, alive (nd s y) = true -> y < N) -> 3 * N + 3 <= f ->
@@ -438,9 +438,9 @@ End StepFuelAny.
 Definition creates_below (N : nat) (o : PulseModel.top) : Prop := match o with TNew x => x < N | _ => True end.
 
 Section RunTotal.
-  Variable gt : nat -> nat -> N -> N -> N * list cop.
-  Variable pl : nat -> nat -> N -> N -> list cop.
-  Hypothesis gt_pure : forall x k now prev, snd (gt x k now prev) = [].
+  Variable gt : nmap -> nat -> nat -> N -> N -> N * list cop.
+  Variable pl : nmap -> nat -> nat -> N -> N -> list cop.
+  Hypothesis gt_pure : forall m x k now prev, snd (gt m x k now prev) = [].
 
   Lemma step_alive f s o s' N :
     Good nobody (nd s) -> (forall y, alive (nd s y) = true -> y < N) -> creates_below N o ->
